@@ -30,6 +30,8 @@ def check_items(ctx, scs, label, chunk=1500):
             fb.add(idx, scs[idx])
         builders.append(fb)
     progs = [fb.program("%s_%d" % (label, i)) for i, fb in enumerate(builders)]
+    for fb, prog in zip(builders, progs):
+        prog["_items"] = [list(it[:3]) for it in fb.items]
     res = proglib.run_vh(ctx, progs, dump=True, timeout=1800)
     n = nontrivial = unspec = 0
     bad = []
@@ -77,6 +79,11 @@ def check_items(ctx, scs, label, chunk=1500):
     return n, nontrivial, unspec, bad, samples
 
 
+def fb_items(prog, group, label):
+    """(scenario index, item name, ...) of the generated file: item names are T<n>/F<n>/... in the order of FileBuilder.add."""
+    return prog.get("_items") or []
+
+
 def run(ctx):
     if ctx.replay:
         obj = json.load(open(ctx.replay))
@@ -119,7 +126,21 @@ def run(ctx):
             # reproduce alone
             n1, _, _, bad1, _ = check_items(ctx, [group[idx]], "C15_one")
             if not bad1:
-                raise vlib.ToolError("grammar mismatch did not reproduce alone: %s" % what)
+                # not alone: does it reproduce in its own file (the generated file is ordinary Go with many declarations), analysed
+                # on its own, twice?  Then the reading of a comment depends on the other declarations of the package.
+                again = []
+                for _rep in range(2):
+                    r2 = proglib.run_vh(ctx, [prog], dump=True)[prog["id"]]
+                    o2 = gen_grammar.observed(r2, prog["pkgs"][0]["path"]) if not (r2.get("err") or r2.get("fail")) else None
+                    name = [it[1] for it in fb_items(prog, group, label) if it[0] == idx]
+                    again.append(o2 is not None and bool(name) and sorted(map(str, o2.get(name[0], set()))) == what["observed"])
+                if not all(again):
+                    raise vlib.ToolError("grammar mismatch did not reproduce alone nor in its file: %s" % what)
+                ctx.violation("comment %r at placement %s: the documented grammar gives %s, the readers give %s - only when the declaration "
+                              "stands among the other declarations of its file (alone it is read correctly): the reading of a comment depends "
+                              "on neighbouring declarations" % (what["line"], what["site"], what["expected"], what["observed"]),
+                              {"kind": "program", "program": prog, "expected": [], "cats": [], "detail": what})
+                continue
             ctx.violation("comment %r at placement %s: the documented grammar gives %s, the readers give %s"
                           % (what["line"], what["site"], what["expected"], what["observed"]),
                           {"kind": "grammar", "scenario": group[idx], "detail": what})
